@@ -124,6 +124,22 @@ class SliceView:
         return self.base.get(self.lo + i)
 
 
+class ConcatView:
+    """a + b of abstract lists, not materialised"""
+
+    def __init__(self, a, b):
+        self.a, self.b = a, b
+        self.n = a.n + b.n
+        self.shape, self.is_tuple = a.shape, getattr(a, "is_tuple", False)
+
+    def get(self, i):
+        import z3
+        x, y = self.a.get(i), self.b.get(i - self.a.n)
+        if z3.is_expr(x) and z3.is_expr(y):
+            return z3.If(i < self.a.n, x, y)
+        raise OutsideSubset("element of a lazy concatenation of object lists")
+
+
 class IterObj:
     def __init__(self, seq, pos=0):
         self.seq, self.pos = seq, pos
